@@ -695,7 +695,7 @@ impl Network for WireNet {
             Some(Inbound::Tcp(st, sp, dp)) => {
                 crate::simsock::reset();
                 crate::simsock::set_tcp(st);
-                let mut s = crate::simsock::SimSocket;
+                let mut s = crate::simsock::SimSocket::anon();
                 if self.cfg.v6 {
                     self.cfg.ipv6().recv_tcp_socket(&mut s, trippy_core::Port(sp), trippy_core::Port(dp))
                 } else {
